@@ -10,13 +10,14 @@ def generate(G):
     for rank, tier in ((1, "quick"), (2, "quick"), (3, "thorough")):
         G.ob("c16_flat_oob_r%d" % rank, "C16", "flat_oob", "c16::flat_oob(s, %d, 4)" % rank, unwind=rank + 2, tier=tier, kind="refusal",
              skeleton={"rank": rank, "extents": "symbolic in 1..=4", "index": "len + {0..3}"})
-    for rank, mx, tier in ((1, 3, "quick"), (2, 3, "quick"), (3, 2, "thorough")):
-        G.ob("c16_from_ok_r%d" % rank, "C16", "from_dims_values", "c16::from_dims_values(s, %d, %d, true)" % (rank, mx),
-             unwind=mx * mx + 4, tier=tier,
-             skeleton={"rank": rank, "extents": "symbolic in 0..=%d" % mx, "length": "symbolic", "side": "valid => constructed as given"})
-        G.ob("c16_from_bad_r%d" % rank, "C16", "from_dims_values", "c16::from_dims_values(s, %d, %d, false)" % (rank, mx),
-             unwind=mx * mx + 4, tier=tier, kind="refusal",
-             skeleton={"rank": rank, "extents": "symbolic in 0..=%d" % mx, "length": "symbolic", "side": "invalid => refused"})
+    for rank, mx, ln, tier in ((1, 4, 3, "quick"), (2, 4, 4, "quick"), (2, 4, 6, "thorough"), (3, 3, 4, "thorough"), (3, 3, 6, "quick"),
+                               (4, 2, 4, "thorough"), (2, 4, 1, "thorough"), (1, 8, 6, "thorough")):
+        G.ob("c16_from_ok_r%d_len%d" % (rank, ln), "C16", "from_dims_values", "c16::from_dims_values(s, %d, %d, %d, true)" % (rank, mx, ln),
+             unwind=ln + 4, tier=tier,
+             skeleton={"rank": rank, "extents": "symbolic in 0..=%d" % mx, "length": ln, "side": "valid => constructed as given"})
+        G.ob("c16_from_bad_r%d_len%d" % (rank, ln), "C16", "from_dims_values", "c16::from_dims_values(s, %d, %d, %d, false)" % (rank, mx, ln),
+             unwind=ln + 4, tier=tier, kind="refusal",
+             skeleton={"rank": rank, "extents": "symbolic in 0..=%d" % mx, "length": ln, "side": "invalid => refused"})
     for depth, tier in ((1, "quick"), (2, "quick"), (3, "quick")):
         G.ob("c16_nested_d%d" % depth, "C16", "nested", "c16::nested(s, %d)" % depth, unwind=10, tier=tier, skeleton={"depth": depth})
     for v, tier in ((0, "quick"), (1, "thorough"), (2, "quick")):
